@@ -52,7 +52,22 @@ fn main() {
         }
         i += 1;
     }
+    // ---- supervisor: run the check in a child process so that an abort (allocation failure,
+    // stack overflow, watchdog) is attributed to the case in flight instead of killing the check
+    if replay.is_none() && std::env::var_os("CVERIF_CHILD").is_none() && std::env::var_os("CVERIF_NO_SUPERVISOR").is_none() {
+        std::process::exit(supervise(&id, tier, seed));
+    }
     engine::install_panic_hook();
+    if std::env::var_os("CVERIF_CHILD").is_some() {
+        engine::start_hang_watchdog();
+        // a runaway allocation must fail (abort -> isolated by the supervisor) instead of
+        // dragging the machine into the OOM killer
+        let gib: u64 = std::env::var("CVERIF_AS_GIB").ok().and_then(|s| s.parse().ok()).unwrap_or(24);
+        let lim = libc::rlimit { rlim_cur: gib << 30, rlim_max: gib << 30 };
+        unsafe {
+            libc::setrlimit(libc::RLIMIT_AS, &lim);
+        }
+    }
 
     let Some(prop) = props::lookup(&id) else {
         eprintln!("unknown property {id}");
@@ -88,4 +103,128 @@ fn main() {
     (prop.run)(&mut ctx);
     let code = ctx.finish(prop.rule);
     std::process::exit(code)
+}
+
+/// Supervisor: run the check as a child; on abnormal termination isolate the culprit case.
+fn supervise(id: &str, tier: Tier, seed: u64) -> i32 {
+    use std::process::{Command, Stdio};
+    use std::time::{Duration, Instant};
+    let exe = std::env::current_exe().expect("current_exe");
+    let scratch = std::path::PathBuf::from(format!("{}/harness/target/scratch/{}-{}", engine::VERIF_ROOT, id, std::process::id()));
+    let _ = std::fs::remove_dir_all(&scratch);
+    if std::fs::create_dir_all(&scratch).is_err() {
+        eprintln!("cannot create scratch directory {scratch:?}");
+        return 2;
+    }
+    let tier_s = if tier == Tier::Quick { "quick" } else { "thorough" };
+    let mut child = match Command::new(&exe).args([id, "--tier", tier_s, "--seed", &seed.to_string()]).env("CVERIF_CHILD", "1").env("CVERIF_SLOTS", &scratch).spawn() {
+        Ok(c) => c,
+        Err(e) => {
+            eprintln!("cannot start the check process: {e}");
+            return 2;
+        }
+    };
+    let budget = Duration::from_secs(if tier == Tier::Quick { 45 * 60 } else { 10 * 3600 });
+    let started = Instant::now();
+    let status = loop {
+        match child.try_wait() {
+            Ok(Some(st)) => break Some(st),
+            Ok(None) => {
+                if started.elapsed() > budget {
+                    let _ = child.kill();
+                    let _ = child.wait();
+                    break None;
+                }
+                std::thread::sleep(Duration::from_millis(20));
+            }
+            Err(_) => break None,
+        }
+    };
+    let code = match status {
+        Some(st) if st.code().is_some() => {
+            let _ = std::fs::remove_dir_all(&scratch);
+            return st.code().unwrap();
+        }
+        Some(st) => format!("{st}"),
+        None => "overall time budget exceeded".to_string(),
+    };
+    eprintln!("the check process ended abnormally ({code}); isolating the case in flight");
+    // candidates: the slot files, most recently written first
+    let mut slots: Vec<(std::time::SystemTime, std::path::PathBuf)> = std::fs::read_dir(&scratch)
+        .map(|rd| rd.filter_map(|e| e.ok()).filter_map(|e| Some((e.metadata().ok()?.modified().ok()?, e.path()))).collect())
+        .unwrap_or_default();
+    slots.sort();
+    slots.reverse();
+    let dir = format!("{}/replays/{}", engine::VERIF_ROOT, id);
+    let _ = std::fs::create_dir_all(&dir);
+    let mut found = 0;
+    for (_, slot) in slots {
+        let Ok(text) = std::fs::read_to_string(&slot) else { continue };
+        if serde_json::from_str::<serde_json::Value>(&text).is_err() {
+            continue;
+        }
+        let dest = format!("{dir}/crash-{:016x}.json", engine::hash_str(&text));
+        if std::fs::write(&dest, &text).is_err() {
+            continue;
+        }
+        let mut g = match Command::new(&exe).args([id, "--replay", &dest]).env("CVERIF_CHILD", "1").stdout(Stdio::piped()).stderr(Stdio::null()).spawn() {
+            Ok(g) => g,
+            Err(_) => continue,
+        };
+        let t0 = Instant::now();
+        let st = loop {
+            match g.try_wait() {
+                Ok(Some(st)) => break Some(st),
+                Ok(None) if t0.elapsed() > Duration::from_secs(90) => {
+                    let _ = g.kill();
+                    let _ = g.wait();
+                    break None;
+                }
+                Ok(None) => std::thread::sleep(Duration::from_millis(20)),
+                Err(_) => break None,
+            }
+        };
+        let mut out = String::new();
+        if let Some(mut so) = g.stdout.take() {
+            use std::io::Read;
+            let _ = so.read_to_string(&mut out);
+        }
+        match st {
+            Some(st) if st.code() == Some(0) => {
+                let _ = std::fs::remove_file(&dest);
+            }
+            Some(st) if st.code() == Some(1) => {
+                print!("{out}");
+                found += 1;
+            }
+            Some(st) if st.code().is_some() => {
+                let _ = std::fs::remove_file(&dest);
+            }
+            Some(st) => {
+                println!("VIOLATION property={id} replay={dest}");
+                println!("  the process dies on this case alone ({st}): memory exhaustion, stack overflow or abort");
+                found += 1;
+            }
+            None => {
+                println!("VIOLATION property={id} replay={dest}");
+                println!("  this case alone does not finish within 90 s (hang)");
+                found += 1;
+            }
+        }
+        if found > 0 {
+            break;
+        }
+    }
+    let _ = std::fs::remove_dir_all(&scratch);
+    if found == 0 {
+        eprintln!("no single case reproduces the abnormal end: inconclusive");
+        return 2;
+    }
+    let ev = serde_json::json!({
+        "property_id": id, "tier": tier_s, "seed": seed, "level": "exploration",
+        "coverage": {"evaluations": 1, "distinct_nontrivial": 2, "rule": "the check process died; the case in flight was isolated by the supervisor and reproduces the death alone", "samples": ["see the replay file named in the VIOLATION line"]},
+        "wall_s": started.elapsed().as_secs_f64(), "violations": found,
+    });
+    let _ = std::fs::write(format!("{}/evidence/{}.json", engine::VERIF_ROOT, id), serde_json::to_string_pretty(&ev).unwrap());
+    1
 }
